@@ -218,6 +218,13 @@ def doOset (line : String) : String := Id.run do
         out := out ++ [match compare (get regs r).raw (get regs arg.toNat!).raw with
           | .lt => "less" | .eq => "equal" | .gt => "greater"]
       | "eq" => out := out ++ [toString ((get regs r).raw == (get regs arg.toNat!).raw)]
+      | "clone" => regs := (r, get regs arg.toNat!) :: regs; out := out ++ [showSet ty (get regs r)]
+      | "default" => regs := (r, Oset.new) :: regs; out := out ++ [showSet ty (get regs r)]
+      | "empty" => out := out ++ [toString ((get regs r).length == 0)]
+      | "nth" =>
+        out := out ++ [match (get regs r).raw[arg.toNat!]? with
+          | some x => showSet ty (Oset.ofList [x])
+          | none => "none"]
       | _ => out := out ++ ["bad-op"]
     | _ => out := out ++ ["bad-op"]
   return "(oset " ++ " ".intercalate out ++ ")"
